@@ -173,7 +173,9 @@ def cci(h, l, c, p):
         w = window(tp, i, p)
         m = _mean(w)
         md = math.fsum(abs(v - m) for v in w) / p
-        out.append(None if md == 0 else (tp[i] - m) / (0.015 * md))
+        # a window of (numerically) equal prices is 0/0: the quotient of two rounding residues has no defined value,
+        # in the reference or in the code; such rows are not compared
+        out.append(None if md <= 1e-12 * max(1.0, abs(m)) else (tp[i] - m) / (0.015 * md))
     return out
 
 
